@@ -858,10 +858,10 @@ func (e *Executor) Execute(ctx context.Context, m File) (err error) {
 				return err
 			}
 		}
-		// The applied part is unchanged, but the rest of the file may have been edited
-		// since the last attempt. Keep the total in sync with the statements to execute.
-		r.Total = len(stmts)
 	}
+	// The applied part is unchanged, but the rest of the file may have been edited since
+	// the last attempt. Keep the revision in sync with the file that is executed now.
+	r.Total, r.Hash = len(stmts), hash
 	e.log.Log(LogFile{m, r.Version, r.Description, r.Applied})
 	if err := e.fileChecks(ctx, m, r); err != nil {
 		e.log.Log(LogError{Error: err})
